@@ -246,6 +246,11 @@ TNext == /\ l < Len(Steps(tid))
                /\ Report(StampOK(NewEmitted(A, B), B), "L1", l + 1, "C13.stamp")
                /\ Report(cfg.api \/ rec.lab.kind = "STOPR" \/ CorrespOK(A, B, NewEmitted(A, B)), "L1", l + 1, "C13.corresp")
                /\ Report(\A o \in ObsNames : OCfg(o).rate > cfg.hotRate => B.obs[o].data = 0, "L1", l + 1, "C07.overrate")
+               (* a machine keeps the speed and bandwidth the configuration gave it *)
+               /\ Report("mach" \notin DOMAIN rec
+                         \/ \A j \in 1..Len(rec.mach) :
+                               rec.mach[j].id \in Machines => (rec.mach[j].cpu = Cpu(rec.mach[j].id) /\ rec.mach[j].bw = Bw(rec.mach[j].id)),
+                         "L1", l + 1, "C06.speed")
                /\ IF l + 1 = Len(Steps(tid)) THEN EndChecks(TData.traces[tid], l + 1) ELSE TRUE
                /\ IF l = 1 /\ ~TData.traces[tid].cfg.api /\ ~MatchS(StartState, A)
                   THEN PrintT(<<"DRIFT", tid, 1, "INIT", {f \in DOMAIN Norm(A) : Norm(A)[f] # Norm(StartState)[f]}>>)
